@@ -62,6 +62,10 @@ func mkOp(group, sub string, ks []kind, zs []*big.Int) opCase {
 	case "cmp":
 		tc.tree = &node{op: "cmp", sub: sub, a: v(ks[0], 0), b: v(ks[1], 1)}
 		line = fmt.Sprintf("C01 cmp %s %s %s %s", sub, ks[0].name, zs[0], zs[1])
+	case "convstr":
+		tc.tree = &node{op: "str", a: v(ks[0], 0)}
+		line = fmt.Sprintf("C01 convstr %s %s", ks[0].name, zs[0])
+		tc.opLine = line
 	}
 	return opCase{line: line, tc: tc}
 }
@@ -127,6 +131,8 @@ func opAnswer(ans string, resultType string) (vm, spec string, canon bool, ok bo
 			return "ok " + resultType + " " + s[5:], false
 		case strings.HasPrefix(s, "err:"):
 			return "err " + s[4:], true
+		case resultType == "string":
+			return "ok string " + s, true
 		}
 		return "other: " + s, true
 	}
@@ -136,6 +142,9 @@ func opAnswer(ans string, resultType string) (vm, spec string, canon bool, ok bo
 }
 
 func (o opCase) resultType() string {
+	if o.tc.tree.op == "str" {
+		return "string"
+	}
 	if k, ok := o.tc.tree.resultKind(); ok {
 		return k.name
 	}
@@ -192,6 +201,21 @@ func opCases(c *hx.Ctx, uintptrNotOK bool) []opCase {
 		for _, kd := range kinds {
 			for _, x := range xs {
 				out = append(out, mkOp("conv", "", []kind{k, kd}, []*big.Int{x, big.NewInt(0)}))
+			}
+		}
+		// string(x): code points around the UTF-8 length boundaries, the surrogates, MaxRune, and
+		// values that are valid code points only after truncation to 32 bits
+		{
+			var zs []*big.Int
+			for _, c := range []int64{0, 0x41, 0x7F, 0x80, 0x7FF, 0x800, 0xD7FF, 0xD800, 0xDFFF, 0xE000, 0xFFFD, 0xFFFF,
+				0x10000, 0x1F600, 0x10FFFF, 0x110000, 1<<31 - 1, 1 << 31, 1<<32 + 0x41, 1<<32 - 1, 1<<40 + 0x263A, -1, -0x41, -1 << 31, -1<<32 + 0x41} {
+				if z := big.NewInt(c); k.inRange(z) {
+					zs = append(zs, z)
+				}
+			}
+			zs = append(zs, k.min(), k.max(), k.random(c.R), k.random(c.R))
+			for _, z := range zs {
+				out = append(out, mkOp("convstr", "", []kind{k}, []*big.Int{z}))
 			}
 		}
 		// shifts: every count kind; counts around 0, the width, 64, the maximum of the count kind
@@ -258,10 +282,11 @@ func (w *world) failing(tc *tcase) (bool, string, string) {
 	if model == nil {
 		return false, impl[0], ""
 	}
-	if model[0] == "bad-op" {
-		return false, impl[0], model[0] // not a well-formed case: not a counterexample
+	m := tc.modelAnswer(model[0])
+	if m == "bad-op" {
+		return false, impl[0], m // not a well-formed case: not a counterexample
 	}
-	return !sameOutcome(impl[0], model[0]), impl[0], model[0]
+	return !sameOutcome(impl[0], m), impl[0], m
 }
 
 func first(s []string) string {
@@ -672,6 +697,7 @@ func run(c *hx.Ctx) error {
 			return err
 		}
 		for i := range cases {
+			model[i] = cases[i].modelAnswer(model[i])
 			res.SpecChecks["gc-vs-lean-eval"]++
 			if gcOut[i] != model[i] && sameOutcome(gcOut[i], model[i]) {
 				res.SpecChecks["gc-raises-the-other-of-two-panics"]++
@@ -683,7 +709,9 @@ func run(c *hx.Ctx) error {
 		}
 	}
 	res.Histogram["scriggo-builds"] = w.builds
-	return nil
+
+	// ---- stream 4: whole programs over a wide part of the language, gc against Scriggo
+	return programStream(c, c.N(400, 4000), c.N(40, 80))
 }
 
 // shrinkErr minimises a case on which Build or Run fails as a whole (host panic, build error).
@@ -725,4 +753,66 @@ func (w *world) shrinkErr(tc *tcase) *tcase {
 		}
 	}
 	return cur
+}
+
+// ---------------------------------------------------------------- stream 4: whole programs, gc vs Scriggo
+
+// programStream generates n programs, runs them with gc (one binary) and with Scriggo, compares
+// the transcripts, shrinks differences.
+func programStream(c *hx.Ctx, n int, shrinkBudget int) error {
+	res := c.Res
+	g := &pgen{r: c.R, avoid: map[string]bool{}}
+	var progs []*program
+	var findingOf []string
+	// recorded findings whose minimal is a whole program: replayed first
+	for _, f := range c.Findings {
+		if strings.HasPrefix(f.Minimal, "package main") {
+			progs = append(progs, rawProgram(f.Minimal))
+			findingOf = append(findingOf, f.ID)
+			g.avoid[f.ID] = true
+		}
+	}
+	nFind := len(progs)
+	for i := 0; i < n; i++ {
+		progs = append(progs, g.genProgram())
+	}
+	gcOut, err := runGCPrograms(progs)
+	if err != nil {
+		res.AddBreak(proto.Break{Kind: "correspondence", Name: "generated-programs-compile-with-gc", Case: "go run", Impl: err.Error(), Model: "every generated program is valid Go"})
+		return nil
+	}
+	res.SpecChecks["go-run-invocations"]++
+	sc, err := runScriggoPrograms(progs)
+	if err != nil {
+		return err
+	}
+	for i, p := range progs {
+		if i < nFind {
+			if gcOut[i] != sc[i] {
+				res.AddBreak(proto.Break{Kind: "property", Name: "program-vs-gc", Case: p.text("P", "main"), Impl: sc[i], Model: "gc: " + gcOut[i], Finding: findingOf[i]})
+			}
+			continue
+		}
+		src := p.text("P", "main")
+		res.Count(src, true)
+		for _, f := range p.frags {
+			res.Hist("prog-" + f.kind)
+		}
+		switch {
+		case strings.Contains(gcOut[i], "=== PANIC"):
+			res.Hist("prog-outcome-panic")
+		default:
+			res.Hist("prog-outcome-normal")
+		}
+		res.SpecChecks["program-scriggo-vs-gc"]++
+		if i%97 == 0 {
+			res.Sample(map[string]string{"program": src, "gc": gcOut[i], "scriggo": sc[i]})
+		}
+		if gcOut[i] != sc[i] {
+			min := shrinkProgram(p, shrinkBudget)
+			_, s2, g2 := programDiffers(min)
+			res.AddBreak(proto.Break{Kind: "property", Name: "program-vs-gc", Case: min.text("P", "main"), Human: "fragments: " + min.kinds(), Impl: s2, Model: "gc: " + g2})
+		}
+	}
+	return nil
 }
